@@ -13,8 +13,10 @@
   * `writeAfterBegin`  — a stream writes only after it was created.
 
   Streams are numbered by order of creation (k-th stream of the connection), not by wire id.
-  What is NOT checked here is that the four event kinds of the component models denote the same
-  instants of one execution; that identification is argued in DESIGN.md §0.6.
+  The manager-side hypotheses (`beginAfterPrevDone`, `doneAfterBegin`) are derived from the manager
+  protocol checker in `Props/ComposeManager.lean` (`compose_hyp`). What is NOT checked is that the
+  stream-side events (`write`, `fin`) of the stream model and the manager's events denote instants
+  of one execution; that identification is argued in DESIGN.md §0.3.
 -/
 namespace Drpc.Props.Compose
 
